@@ -317,7 +317,7 @@ func (s *sched) run(fns [2]func(), plan []swSeg) (trace []swTrace, blocked int, 
 		for waitingFor {
 			var timeout <-chan time.Time
 			if canSwitch {
-				timeout = time.After(25 * time.Millisecond)
+				timeout = time.After(80 * time.Millisecond)
 			} else {
 				timeout = time.After(3 * time.Second)
 			}
@@ -370,7 +370,7 @@ func buildSweepCase(id string, seed uint64, kind int, out *Out, stats *Stats) *s
 	r := NewRng(seed*7919 + 13)
 	set := pickSettings(r)
 	set.Limit = 1440
-	set.Timeout = 300 * time.Millisecond
+	set.Timeout = 2 * time.Second
 	w := &World{r: r, set: set, stats: stats, mode: "honest"}
 	for k := 0; k < 5; k++ {
 		w.wallets = append(w.wallets, NewWallet(k))
